@@ -1143,16 +1143,25 @@ class C18(Property):
                     for sname, tag in sorted(jv.get("tags", {}).items()):
                         add(mac, "((%d, %d, %d), %d)" % (ALGID[jv["alg"]], secs(sname), inputs(jv["input"]), jt("t:" + tag)))
             req = "(mkReq %s %d %d None %s %s %s)" % (cz(mid), pid, qid, hdr, cz(v["contentlen"]), hexbytes(v["wire"]))
-            sreq = "(mkSreq %s %s %s %s %s)" % (cz(jnow), cred, cz(v["now"]), req, strbytes(q["resp"]))
+            resp_written = "" if (sq.get("rstatus") in (204, 304)) else q["resp"]
+            sreq = "(mkSreq %s %s %s %s %s)" % (cz(jnow), cred, cz(v["now"]), req, strbytes(resp_written))
             route = "None"
             if o.get("ranroute"):
                 m, _, pth = o["ranroute"].partition(" ")
                 route = "(Some (%s, %d))" % (cz(self._mid(ids, m)), ids("p:" + pth))
             mwran = o.get("mwran") if case.get("usemw") else o["ran"]
-            ob = "(mkSObs %s %s %s %s %s %s %s %s %s)" % (
-                cbool(o["ran"]), route, cz(o["status"]), hexbytes(o["seen"]), hexbytes(o["respraw"]),
-                copt(None if o.get("respdec") is None else hexbytes(o["respdec"])), cz(o["uerr"]), cbool(bool(mwran)),
-                cbool(bool(o.get("panic"))))
+            # the status the handler itself writes passes through the gates: normalised to the model's 200
+            status, outer, rst = o["status"], o.get("outerst", -1), sq.get("rstatus") or 200
+            if o["ran"]:
+                status = 200 if status == rst else -1
+                if outer != -1:
+                    outer = 200 if outer == rst else -1
+            # under concurrency the hit counters (hence WHICH error a rejection reports) depend on the schedule
+            uerr = -9 if case.get("parallel") else o["uerr"]
+            ob = "(mkSObs %s %s %s %s %s %s %s %s %s %s %s)" % (
+                cbool(o["ran"]), route, cz(status), hexbytes(o["seen"]), hexbytes(o["respraw"]),
+                copt(None if o.get("respdec") is None else hexbytes(o["respdec"])), cz(uerr), cbool(bool(mwran)),
+                cbool(bool(o.get("ctxok", True))), cz(outer), cbool(bool(o.get("panic"))))
             reqs.append("(%s, %d%%nat, %s)" % (sreq, sq["tgt"], ob))
         tabs = "(mkTabs %s %s %s %s %s %s %s %s)" % (clist(mac), clist(rsa), clist(cmac), clist(sha), clist(aes),
                                                     clist(et), clist(dt), clist(b64))
@@ -1286,7 +1295,18 @@ class C18(Property):
                   and (not tgt["jwt"] or (j is not None and j["cls"] in self.JWT_OK_CLS))):
                 entry["clean"] = True
             reqs.append(entry)
-        return {"kind": "srv", "sgroups": groups, "sreqs": reqs, "uacb": rng.random() < 0.6, "uscb": rng.random() < 0.3,
+        for x in reqs:
+            if rng.random() < 0.3:
+                x["hb"] = rng.choice(["partial", "twice", "late"])
+            if rng.random() < 0.2:
+                x["rstatus"] = rng.choice([201, 202, 204, 304, 404, 500])
+        parallel = rng.random() < 0.35
+        if parallel:
+            for x in reqs:
+                if x["j"] is not None:
+                    x["j"]["now"] = now              # one JWT clock for the whole burst
+        return {"kind": "srv", "parallel": parallel, "outer": rng.random() < 0.3,
+                "sgroups": groups, "sreqs": reqs, "uacb": rng.random() < 0.6, "uscb": rng.random() < 0.3,
                 "usemw": rng.random() < 0.5, "natives": rng.random() < 0.3}
 
     def _chain_view(self, case, o):
@@ -1402,6 +1422,10 @@ class C18(Property):
         elif case["kind"] == "srv":
             so = obs["srv"]
             fs.append("srv:groups=%d" % len(case["sgroups"]))
+            if case.get("parallel"):
+                fs.append("srv:parallel:handlers-held=%d" % sum(1 for r in so["reqs"] if r["ran"]))
+            if case.get("outer"):
+                fs.append("srv:outer-chain")
             fs.append("srv:bindok" if so["bindok"] else "srv:bindfail")
             if any(r.get("unstable") for r in so["reqs"]):
                 fs.append("srv:unstable-second-skipped")
@@ -1414,6 +1438,8 @@ class C18(Property):
                                                 "ran" if o["ran"] else str(o["status"])))
                 if o["uerr"] not in (-9, 0):
                     fs.append("srv:uerr=%d" % o["uerr"])
+                if sq.get("hb") or sq.get("rstatus"):
+                    fs.append("srv:handler:%s:%s" % (sq.get("hb", "-"), sq.get("rstatus", 200)))
                 if sq.get("reuse") is not None:
                     fs.append("srv:reuse-header:%s" % ("ran" if o["ran"] else str(o["status"])))
         else:
